@@ -416,6 +416,19 @@ func serveModelCfg(c *vf.Ctx, nconn, free, genN int) {
 	}
 	c.AddTLC(res)
 	covAppend(c, "serve_design", fmt.Sprintf("Serve.tla free interleaving MaxConn=%d MaxStims=%d: generated=%d distinct=%d depth=%d", nconn, free, res.Generated, res.Distinct, res.Depth))
+	// A'. the same as temporal properties under weak fairness of the goroutines' steps
+	lcfg := fmt.Sprintf("CONSTANTS MaxConn = %d MaxStims = %d Gen = FALSE\nSPECIFICATION LiveSpec\nINVARIANT Inv\nPROPERTY CancelLeadsToReturn EndLeadsToDone\nCHECK_DEADLOCK FALSE\n", nconn, free-1)
+	lres, lerr := vf.TLC(vf.TLCOpts{Module: "Serve", Cfg: lcfg, Workers: 8, Timeout: 20 * time.Minute, HeapMB: 6000})
+	if lerr != nil || lres == nil || !lres.Finished {
+		msg := ""
+		if lres != nil {
+			msg = lres.Violated + " " + lres.ErrorText + "\n" + lres.TraceText
+		}
+		c.Inconclusive("liveness check of Serve.tla failed: %v %s", lerr, msg)
+		return
+	}
+	c.AddTLC(lres)
+	covAppend(c, "serve_design", fmt.Sprintf("Serve.tla liveness (WF of internal steps; CancelLeadsToReturn, EndLeadsToDone) MaxConn=%d MaxStims=%d: distinct=%d", nconn, free-1, lres.Distinct))
 	// B. behaviours with stimuli at quiescence, each leaf with the demanded observations
 	byStims := map[string][]*serveBeh{}
 	var order []string
